@@ -5,6 +5,13 @@ LEVEL = "other"   # part of the statement is proved, the rest is decided on the 
 FAMILY = "classic"
 
 
+MANIFEST = {
+ "level": 'other',
+ "text": "Partly proved, partly explored. Proved for every byte string about the Gallina model: node_from_stream equals the recursive grammar, never reaches a panic site or runs out of its input-length fuel, and tree_hash_from_stream accepts the same strings with the same error, leaves the same remaining input and returns the tree hash of the same tree (for any hash function). Not proved: the same refinement for parse_triples (modelled and compared with the implementation only) and the canonical equivalence; those and memory use are decided by exploration: all strings of <= 2 bytes, structured mutations of valid encodings, random strings, through model vs implementation and the implementation's own cross-decoder comparison.",
+ "note": vlib.NOTE_COMMON + " Level 'other' because the full conjunction is not proved (Props/C16.v names the missing conjuncts).",
+ "technique": 'Coq proof (generic stack-decoder refinement lemma instantiated twice) + model/implementation differential run (exhaustive <= 2 bytes) + implementation search',
+}
+
 def run(ctx):
     r = ctx.rng
     ctx.rule = ("all byte strings of length <= 2, in the thorough tier also all 3-byte strings whose first byte is at a prefix-class boundary (18 first bytes, node_from_stream only), plus structured strings: valid "
